@@ -338,6 +338,9 @@ def r_write(E):
         res.instances += 1
         owner, fn = pm.find_method(c, "update_" + x)
         path = pm.path_of(owner)
+        # which part of the model the rule belongs to (properties about one part claim the findings of that part)
+        areas = {"clauses": ["all"] + (["infra"] if "InfraHardware" in pm.mro(c) else [])
+                 + (["builder"] if "builders/" in pm.path_of(c) else [])}
         for a, sites in sorted(cx.writes.items()):
             if a != x:
                 s = sites[0]
@@ -345,22 +348,22 @@ def r_write(E):
                     "R-WRITE", f"{c}.update_{x} writes self.{a} :: {norm(s.node)[:120]}",
                     f"{c}.update_{x} also assigns self.{a} (in {s.func}): that value has no twin in a simulation, is "
                     f"not restored by reset_values and its dependants are not in the recomputation chain",
-                    s.path, s.node.lineno, s.func))
+                    s.path, s.node.lineno, s.func, areas))
         if x not in cx.writes:
             res.findings.append(Finding(
                 "R-WRITE", f"{c}.update_{x} never writes self.{x}",
-                f"{c}.update_{x} has no assignment to self.{x} on any path", path, fn.lineno, f"{owner}.update_{x}"))
+                f"{c}.update_{x} has no assignment to self.{x} on any path", path, fn.lineno, f"{owner}.update_{x}", areas))
         for (node, where, text) in cx.foreign_writes:
             res.findings.append(Finding(
                 "R-WRITE", f"{c}.update_{x} foreign store :: {text[:120]}",
                 f"{c}.update_{x} stores into another model object ({text[:80]}) in {where[1]}",
-                where[0], node.lineno, where[1]))
+                where[0], node.lineno, where[1], areas))
         for (node, where, b) in cx.frame_stores:
             res.findings.append(Finding(
                 "R-WRITE", f"{c}.update_{x} frame store :: {norm(node)[:120]}",
                 f"{c}.update_{x} stores into a frame that is (or shares its data with) model attribute(s) "
                 f"{sorted((r[0] + '.' + r[1]) for r in b.shares)} in {where[1]}: computing alters an input or an "
-                f"already computed value", where[0], node.lineno, where[1]))
+                f"already computed value", where[0], node.lineno, where[1], areas))
         if len(res.samples) < 4:
             res.samples.append({"context": f"{c}.update_{x}", "self_attributes_written": sorted(cx.writes),
                                 "helpers_inlined": sorted(set(cx.calls))[:6]})
